@@ -146,6 +146,48 @@ async fn sequential(rep: &mut Report, n: u32, min_idle: usize) {
     w.client.stop_session_pool_cleanup().await;
 }
 
+/// sequential requests of which every second one fails (closed port): a refused open must not cost
+/// the session — no new connection for the next request, no accumulation
+async fn sequential_with_failures(rep: &mut Report, n: u32) {
+    let pool = SessionPoolConfig { check_interval: Duration::from_secs(3600), idle_timeout: Duration::from_secs(7200), min_idle_sessions: 1 };
+    let Some(w) = build_world(pool).await else {
+        rep.inconclusive("cannot build world");
+        return;
+    };
+    let refused = netkit::free_port();
+    let mut dials_after: Vec<usize> = Vec::new();
+    for i in 0..n {
+        if i % 2 == 1 {
+            let ip = Ipv4Addr::new(127, 57, 0, (i as u8).max(1));
+            match netkit::socks5_connect(&w.socks, &SocksDest::V4(ip, refused), Duration::from_secs(20)).await {
+                Ok((_, code)) if code != 0 => {}
+                other => {
+                    rep.inconclusive(format!("refused request {i}: {:?}", other.map(|x| x.1)));
+                    return;
+                }
+            }
+            tokio::time::sleep(Duration::from_millis(60)).await;
+        } else if let Err(e) = socks_request(&w, 4000 + i).await {
+            rep.inconclusive(format!("request {i}: {e}"));
+            return;
+        }
+        dials_after.push(w.relay.accepted.load(Ordering::SeqCst));
+    }
+    rep.add("sequential_requests_with_failures", n as u64);
+    let case = json!({"kind": "c13-sequential-failures", "requests": n, "every_second_refused": true, "tls_connections_after_each_request": dials_after});
+    rep.case(Some(hash_str(&case.to_string())));
+    rep.sample(case.clone());
+    let total = *dials_after.last().unwrap_or(&0);
+    if total > 1 {
+        rep.violate("reuse", "sequential_requests_with_refused_opens", "non_overlapping_request_redialled", format!("{n} sequential requests, every second one to a closed port, were served over {total} TLS connections: {:?}", dials_after), case.clone());
+    }
+    let open = w.relay.open.load(Ordering::SeqCst);
+    if open > 2 {
+        rep.violate("reuse", "sequential_requests_with_refused_opens", "sessions_accumulate", format!("{open} TLS connections are open after {n} sequential requests (peak concurrency 1, min_idle 1)"), case);
+    }
+    w.client.stop_session_pool_cleanup().await;
+}
+
 /// sequential requests separated by pauses longer than idle_timeout: with min_idle >= 1 the reaper
 /// keeps a session, so a later request must still be served without a new connection
 async fn sequential_with_pauses(rep: &mut Report, n: u32, min_idle: usize) {
@@ -286,6 +328,9 @@ pub fn run(ctx: Ctx) -> Report {
         for (n, min_idle) in if quick { vec![(4u32, 1usize)] } else { vec![(4, 1), (6, 2), (10, 1)] } {
             sequential_with_pauses(&mut rep, n, min_idle).await;
         }
+        for n in if quick { vec![8u32] } else { vec![8, 40] } {
+            sequential_with_failures(&mut rep, n).await;
+        }
         for (k, rounds) in if quick { vec![(4u32, 3u32)] } else { vec![(4, 3), (8, 5), (2, 12), (16, 3)] } {
             bursty(&mut rep, k, rounds).await;
         }
@@ -324,9 +369,9 @@ pub fn run_c12_client_level(ctx: Ctx) -> Report {
 pub fn meta() -> CheckMeta {
     CheckMeta {
         level: "exploration",
-        rule: "real Client + SOCKS5 front-end + Server over loopback TLS behind a TCP relay that counts TLS connections (accepted, open, peak). Sequential histories of 3-200 complete requests (connect, echo, application closes, target closes, front-end winds down) with min_idle in {0,1,2,5}: the number of TLS connections after each request is recorded; every request after the first must be served without a new connection, and at the end at most 1 + min_idle connections may be open. Paused histories: 4-10 sequential requests separated by 750 ms with idle_timeout 400 ms / check_interval 200 ms and min_idle >= 1 (the reaper must keep a session, so still 1 connection). Bursty histories: rounds of k in {2,4,8,16} concurrent requests, each round after the previous one finished: at most k connections in total, at most k+1 open. The reaper and keep-alive are effectively off (3600 s) so that only reuse is observed. distinct_nontrivial = distinct histories.".into(),
+        rule: "real Client + SOCKS5 front-end + Server over loopback TLS behind a TCP relay that counts TLS connections (accepted, open, peak). Sequential histories of 3-200 complete requests (connect, echo, application closes, target closes, front-end winds down) with min_idle in {0,1,2,5}: the number of TLS connections after each request is recorded; every request after the first must be served without a new connection, and at the end at most 1 + min_idle connections may be open. Paused histories: 4-10 sequential requests separated by 750 ms with idle_timeout 400 ms / check_interval 200 ms and min_idle >= 1 (the reaper must keep a session, so still 1 connection). Failure histories: 8-40 sequential requests of which every second one goes to a closed port (a refused open must not cost the session). Bursty histories: rounds of k in {2,4,8,16} concurrent requests, each round after the previous one finished: at most k connections in total, at most k+1 open. The reaper and keep-alive are effectively off (3600 s) so that only reuse is observed. distinct_nontrivial = distinct histories.".into(),
         assumptions: vec!["a request counts as finished once the application socket saw end of stream and 60 ms have passed".into(), "healthy session: the server and relay stay up for the whole history".into()],
-        floors: vec![("sequential_requests", 15), ("burst_rounds", 3), ("paused_sequential_requests", 4)],
+        floors: vec![("sequential_requests", 15), ("burst_rounds", 3), ("paused_sequential_requests", 4), ("sequential_requests_with_failures", 8)],
         exhaustive: false,
     }
 }
